@@ -254,7 +254,27 @@ def check(run: Run) -> None:
             if not ok:
                 run.violation("R18.3", wm, qual, "META dict merge loop", "a META{...} request is not merged key by key (unmentioned META fields would be dropped)")
 
-    # ---------------------------------------------------------------- R18.4
+    check_normalize(run, "R18.4")
+
+    # ---------------------------------------------------------------- R18.6
+    cli = run.project.mod("cli.main").func("write")
+    writes = list(am.ast_writes(cli, res))
+    cons = list(am.constructions(cli))
+    delegates = [n for n in walk_no_nested(cli.node) if isinstance(n, ast.Call) and ast.unparse(n.func).endswith("_apply_changes")]
+    ok = bool(delegates) and not writes and not cons
+    run.instance("R18.6", cli.module.loc(cli.node), f"cli write: delegates to _apply_changes={bool(delegates)}, own document writes={len(writes)}, node constructions={len(cons)}", ok=ok)
+    if not ok:
+        first = writes[0][0] if writes else cli.node.name
+        st = first
+        while isinstance(st, ast.AST) and not isinstance(st, ast.stmt):
+            st = getattr(st, "_parent", None)
+        run.violation("R18.6", cli.module, cli.qualname, "inline changes loop in `octave write --changes`", "the CLI applies --changes with its own loop instead of the tool's tri-state implementation: the DELETE sentinel is written as a value, a META{...} request replaces META, and list/dict values are stored unwrapped",
+                      failing_input='octave write f.oct.md --changes \'{"A":{"$op":"DELETE"},"META":{"TYPE":"Y"},"L":["a","b"]}\' -> A::{\'$op\': \'DELETE\'}, other META fields gone, L::[\'a\', \'b\']', line=getattr(st, "lineno", 0) if isinstance(st, ast.AST) else 0)
+
+
+def check_normalize(run: Run, rule: str) -> None:
+    """_normalize_value_for_ast: identity on scalars / None / zones, element-wise wrap of lists and dicts"""
+    wm = run.project.mod("mcp.write")
     nf = wm.func("_normalize_value_for_ast")
     pn = nf.node.args.args[0].arg  # type: ignore[attr-defined]
     rets = [n for n in walk_no_nested(nf.node) if isinstance(n, ast.Return)]
@@ -280,28 +300,14 @@ def check(run: Run) -> None:
                 it_ok = is_name(it, pn) or (isinstance(it, ast.Call) and ast.unparse(it.func) == f"{pn}.items")
                 rec = isinstance(elt, ast.Call) and ast.unparse(elt.func) == "_normalize_value_for_ast" and len(elt.args) == 1
                 ok, what = it_ok and rec, "element-wise wrap"
-        run.instance("R18.4", wm.loc(r), f"_normalize_value_for_ast: `{norm(r)}` is {what or 'NOT identity / element-wise wrap'}", ok=ok)
+        run.instance(rule, wm.loc(r), f"_normalize_value_for_ast: `{norm(r)}` is {what or 'NOT identity / element-wise wrap'}", ok=ok)
         if not ok:
-            run.violation("R18.4", wm, nf.qualname, r, "_normalize_value_for_ast returns something other than the value itself or an element-wise ListValue/InlineMap wrap: the value (or its type) written differs from the value requested")
+            run.violation(rule, wm, nf.qualname, r, "_normalize_value_for_ast returns something other than the value itself or an element-wise ListValue/InlineMap wrap: the value (or its type) written differs from the value requested")
     # the identity return must be reachable for every non-container kind: no isinstance test on scalar types / None
     scalar_tests = [n for n in walk_no_nested(nf.node) if isinstance(n, ast.Call) and ast.unparse(n.func) == "isinstance" and len(n.args) == 2 and any(x in ast.unparse(n.args[1]) for x in ("int", "float", "str", "bool", "bytes"))]
     none_tests = [n for n in walk_no_nested(nf.node) if isinstance(n, ast.Compare) and isinstance(n.ops[0], (ast.Is, ast.IsNot)) and isinstance(n.comparators[0], ast.Constant) and n.comparators[0].value is None]
     ok = not scalar_tests and not none_tests
-    run.instance("R18.4", wm.loc(nf.node), "_normalize_value_for_ast: no scalar-kind or None special case", ok=ok)
+    run.instance(rule, wm.loc(nf.node), "_normalize_value_for_ast: no scalar-kind or None special case", ok=ok)
     for n in scalar_tests + none_tests:
-        run.violation("R18.4", wm, nf.qualname, n, "_normalize_value_for_ast special-cases a scalar kind or None: scalars and null must pass through unchanged")
+        run.violation(rule, wm, nf.qualname, n, "_normalize_value_for_ast special-cases a scalar kind or None: scalars and null must pass through unchanged")
 
-    # ---------------------------------------------------------------- R18.6
-    cli = run.project.mod("cli.main").func("write")
-    writes = list(am.ast_writes(cli, res))
-    cons = list(am.constructions(cli))
-    delegates = [n for n in walk_no_nested(cli.node) if isinstance(n, ast.Call) and ast.unparse(n.func).endswith("_apply_changes")]
-    ok = bool(delegates) and not writes and not cons
-    run.instance("R18.6", cli.module.loc(cli.node), f"cli write: delegates to _apply_changes={bool(delegates)}, own document writes={len(writes)}, node constructions={len(cons)}", ok=ok)
-    if not ok:
-        first = writes[0][0] if writes else cli.node.name
-        st = first
-        while isinstance(st, ast.AST) and not isinstance(st, ast.stmt):
-            st = getattr(st, "_parent", None)
-        run.violation("R18.6", cli.module, cli.qualname, "inline changes loop in `octave write --changes`", "the CLI applies --changes with its own loop instead of the tool's tri-state implementation: the DELETE sentinel is written as a value, a META{...} request replaces META, and list/dict values are stored unwrapped",
-                      failing_input='octave write f.oct.md --changes \'{"A":{"$op":"DELETE"},"META":{"TYPE":"Y"},"L":["a","b"]}\' -> A::{\'$op\': \'DELETE\'}, other META fields gone, L::[\'a\', \'b\']', line=getattr(st, "lineno", 0) if isinstance(st, ast.AST) else 0)
